@@ -492,6 +492,38 @@ func c15Shapes() []string {
 			}
 		}
 	}
+	// order of construction: a component schema that refers, at every position a reference can take, to a component whose
+	// name sorts before it, after it, or to itself (recursive types), the target being an object, an array, a primitive or a oneOf
+	for _, target := range []string{"Aa", "Zz", "Mm"} {
+		for tk, tdef := range []string{objA, `{"type":"array","items":{"type":"string"}}`, `{"type":"string"}`, oneOfAB, `{"type":"array","items":` + objA + `}`} {
+			ref := fmt.Sprintf(`{"$ref":"#/components/schemas/%s"}`, target)
+			for _, referrer := range []string{
+				`{"type":"array","items":` + ref + `}`,
+				`{"type":"object","properties":{"kids":{"type":"array","items":` + ref + `},"n":{"type":"string"}}}`,
+				`{"type":"object","properties":{"next":` + ref + `}}`,
+				`{"type":"object","required":["next"],"properties":{"next":` + ref + `}}`,
+				`{"type":"object","additionalProperties":` + ref + `}`,
+				`{"allOf":[` + ref + `,` + objB + `]}`,
+				`{"oneOf":[` + ref + `,` + objB + `]}`,
+				`{"type":"array","items":{"type":"array","items":` + ref + `}}`,
+				`{"type":"object","properties":{"m":{"type":"object","additionalProperties":{"type":"array","items":` + ref + `}}}}`,
+				ref,
+			} {
+				var entries []string
+				if target == "Mm" {
+					if tk > 0 {
+						continue // (a self reference has no separate target definition)
+					}
+					entries = []string{`"Mm":` + referrer}
+				} else {
+					entries = []string{fmt.Sprintf(`%q:%s`, target, tdef), `"Mm":` + referrer}
+				}
+				comps := `"components":{"schemas":{` + strings.Join(entries, ",") + `}}`
+				out = append(out, head+fmt.Sprintf(`"paths":{"/a":{"get":{"responses":{"200":{"description":"ok","content":{"application/json":{"schema":{"$ref":"#/components/schemas/Mm"}}}}}}}},%s}`, comps))
+				out = append(out, head+fmt.Sprintf(`"paths":{"/a":{"get":{%s}}},%s}`, ok, comps))
+			}
+		}
+	}
 	// other goag extensions with odd values
 	for _, v := range []string{`""`, `"2006"`, `5`, `null`, `{}`, `"time.RFC3339"`} {
 		out = append(out, head+fmt.Sprintf(`"paths":{"/a":{"get":{"parameters":[{"name":"q","in":"query","schema":{"type":"string","format":"date-time","x-goag-go-time-format":%s}}],%s}}}}`, v, ok))
